@@ -313,7 +313,7 @@ func vacuityTwin(env *vm.Env, run HarnessRun) string {
 	for tries := 0; tries < 200 && len(stack) > 0; tries++ {
 		p := stack[len(stack)-1]
 		stack = stack[:len(stack)-1]
-		o := wk.Run(vm.RunOpts{Entry: run.PkgPath + "." + run.Entry, Prefix: p, Budget: run.Budget, FailAtEnd: true, Preempt: run.Preempt, SymMapOrder: run.MapOrder})
+		o := wk.Run(vm.RunOpts{Entry: run.PkgPath + "." + run.Entry, Prefix: p, Budget: run.Budget, FailAtEnd: true, Preempt: run.Preempt, SymMapOrder: run.MapOrder, DeadlockViolation: run.Deadlock, PreemptBudget: run.Budget2})
 		if o.Status == "violation" && o.Violation != nil && o.Violation.AssertID == "vacuity-twin" {
 			return "sat"
 		}
@@ -330,7 +330,7 @@ func vmReplay(env *vm.Env, run HarnessRun, v *vm.Violation) bool {
 		return false
 	}
 	defer wk.Close()
-	o := wk.Run(vm.RunOpts{Entry: run.PkgPath + "." + run.Entry, Concrete: true, Tape: v.Tape, Budget: run.Budget, Preempt: run.Preempt, SymMapOrder: run.MapOrder, ReplayChoices: true})
+	o := wk.Run(vm.RunOpts{Entry: run.PkgPath + "." + run.Entry, Concrete: true, Tape: v.Tape, Budget: run.Budget, Preempt: run.Preempt, SymMapOrder: run.MapOrder, DeadlockViolation: run.Deadlock, PreemptBudget: run.Budget2, ReplayChoices: true})
 	return o.Status == "violation" && o.Violation != nil && o.Violation.AssertID == v.AssertID
 }
 
@@ -567,9 +567,86 @@ func init() {
 	}
 	reg(&CheckSpec{
 		ID: "C19", PkgDir: "statedb",
-		Quick:    []HarnessRun{c19(3, 2, 60)},
-		Thorough: []HarnessRun{c19(4, 2, 60), c19(5, 1, 60)},
+		Quick:    []HarnessRun{c19(3, 2, 60), {Entry: "VerifC19Signal", Covers: []string{"C19.signal.end"}, NoNative: true}},
+		Thorough: []HarnessRun{c19(4, 2, 60), c19(5, 1, 60), {Entry: "VerifC19Signal", Covers: []string{"C19.signal.end"}, NoNative: true}},
 		Known:    []KnownProbe{},
 		Outside: []string{"outside: the moment a waiter wakes up relative to the committing transaction is covered only by C02's commit observer (channel closed => a fresh ReadTxn shows the table initialized); Derive's job wiring; more than two initializer names; registering the same name twice (panics by contract)"},
+	})
+}
+
+func init() {
+	reg(&CheckSpec{
+		ID: "C05", PkgDir: "statedb",
+		Quick: []HarnessRun{
+			{Entry: "VerifC05Serial", Covers: []string{"C05.disjoint-commit", "C05.blocked", "C05.newtable", "C05.end"}, NoNative: true},
+			{Entry: "VerifKFCommitDropsNewTable"},
+			{Entry: "VerifC10Threads", Params: map[string]int{"T": 2, "LISTMAX": 3, "KINDMAX": 0}, Covers: []string{"C10.end"}, NoNative: true, Preempt: 1, Deadlock: true},
+		},
+		Thorough: []HarnessRun{
+			{Entry: "VerifC05Serial", Covers: []string{"C05.disjoint-commit", "C05.blocked", "C05.newtable", "C05.end"}, NoNative: true},
+			{Entry: "VerifKFCommitDropsNewTable"},
+			{Entry: "VerifC10Threads", Params: map[string]int{"T": 2, "LISTMAX": 7, "KINDMAX": 0}, Covers: []string{"C10.end"}, NoNative: true, Preempt: 1, Budget2: 3, Deadlock: true},
+			{Entry: "VerifC10Threads", Params: map[string]int{"T": 3, "LISTMAX": 2, "KINDMAX": 0}, Covers: []string{"C10.end"}, NoNative: true, Preempt: 1, Deadlock: true},
+		},
+		Known: []KnownProbe{{ID: "KF-commit-drops-new-table", Entry: "VerifKFCommitDropsNewTable"}},
+		Outside: []string{"outside: more than 2-3 threads / 3 tables; more than the preemption budget (2 quick, 3 thorough) of voluntary switches per schedule, scheduling points = lock acquisitions and goroutine starts (a ReadTxn/root load is atomic); weak-memory effects",
+			"VerifC05Serial: two logical actors in one thread, the VM's lock monitor decides 'would block' (VM-only vocabulary: counterexamples of this harness are replayed concretely in the VM on the real code, not with go test)"},
+	})
+	reg(&CheckSpec{
+		ID: "C10", PkgDir: "statedb",
+		Quick: []HarnessRun{
+			{Entry: "VerifC10Threads", Params: map[string]int{"T": 2, "LISTMAX": 7, "KINDMAX": 1}, Covers: []string{"C10.end"}, NoNative: true, Preempt: 1, Deadlock: true},
+			{Entry: "VerifC05Serial", Covers: []string{"C05.disjoint-commit", "C05.blocked", "C05.end"}, NoNative: true},
+		},
+		Thorough: []HarnessRun{
+			{Entry: "VerifC10Threads", Params: map[string]int{"T": 2, "LISTMAX": 7, "KINDMAX": 1}, Covers: []string{"C10.end"}, NoNative: true, Preempt: 1, Budget2: 4, Deadlock: true},
+			{Entry: "VerifC10Threads", Params: map[string]int{"T": 3, "LISTMAX": 4, "KINDMAX": 1}, Covers: []string{"C10.end"}, NoNative: true, Preempt: 1, Budget2: 2, Deadlock: true},
+			{Entry: "VerifC08Graveyard", Params: map[string]int{"N": 2, "NIT": 1}, Covers: []string{"C08.end"}, NoNative: true, Preempt: 1, Deadlock: true},
+			{Entry: "VerifC05Serial", Covers: []string{"C05.disjoint-commit", "C05.blocked", "C05.end"}, NoNative: true},
+		},
+		Outside: []string{"outside: starvation/fairness under real schedulers; more than 3 threads; the lock-order argument (acyclic acquisition graph over every explored path, no channel/timer wait while a lock is held) extends the deadlock verdict beyond the explored thread counts only under the assumption that mutexes and the non-blocking channel sends seen on the explored paths are the only waiting primitives reachable from these entry points",
+			"the solver contributes little here: table lists and schedules are small enumerations; the value is the controlled execution of the real lock code"},
+	})
+	reg(&CheckSpec{
+		ID: "C08", PkgDir: "statedb",
+		Quick: []HarnessRun{
+			{Entry: "VerifC08Graveyard", Params: map[string]int{"N": 2, "NIT": 1}, Covers: []string{"C08.retained", "C08.collected-something", "C08.closed", "C08.gc-window", "C08.end"}, NoNative: true, Preempt: 1, Deadlock: true},
+			{Entry: "VerifC08Graveyard", Params: map[string]int{"N": 3, "NIT": 0}, Covers: []string{"C08.end"}, NoNative: true, Preempt: 0, Deadlock: true},
+			{Entry: "VerifC08Graveyard", Params: map[string]int{"N": 2, "NIT": 2}, Covers: []string{"C08.end"}, NoNative: true, Preempt: 0, Deadlock: true},
+		},
+		Thorough: []HarnessRun{
+			{Entry: "VerifC08Graveyard", Params: map[string]int{"N": 3, "NIT": 1}, Covers: []string{"C08.retained", "C08.collected-something", "C08.closed", "C08.gc-window", "C08.end"}, NoNative: true, Preempt: 1, Deadlock: true},
+			{Entry: "VerifC08Graveyard", Params: map[string]int{"N": 3, "NIT": 2}, Covers: []string{"C08.end"}, NoNative: true, Preempt: 0, Deadlock: true},
+			{Entry: "VerifC08Graveyard", Params: map[string]int{"N": 2, "NIT": 2}, Covers: []string{"C08.end"}, NoNative: true, Preempt: 1, Deadlock: true},
+		},
+		Outside: []string{"outside: real-time behaviour of rate.Limiter (stub: Wait yields and returns ctx.Err()); more than 2 keys / 2 iterators / N writer steps; preemption budget 2 at lock acquisitions (this is what places the collector between its lock-free scan and its write transaction); VM-only vocabulary (virtual time, threads): counterexamples are replayed concretely in the VM"},
+	})
+	reg(&CheckSpec{
+		ID: "C20", PkgDir: "statedb",
+		Quick:    []HarnessRun{{Entry: "VerifC20WatchSet", Params: map[string]int{"NCH": 2, "TMAX": 3}, Covers: []string{"C20.result", "C20.cancelled", "C20.settled-several", "C20.end"}, NoNative: true, Deadlock: true}},
+		Thorough: []HarnessRun{{Entry: "VerifC20WatchSet", Params: map[string]int{"NCH": 3, "TMAX": 3}, Covers: []string{"C20.result", "C20.cancelled", "C20.settled-several", "C20.end"}, NoNative: true, Deadlock: true}, {Entry: "VerifC20WatchSet", Params: map[string]int{"NCH": 2, "TMAX": 4}, Covers: []string{"C20.end"}, NoNative: true, Preempt: 1, Deadlock: true}},
+		Outside:  []string{"outside: real timer jitter; more than 3 channels; times beyond TMAX units; virtual discrete-event time (CPU steps take no time, timers fire when every thread is blocked); reflect.Select is modelled by the VM's select (choice among ready cases is explored)"},
+	})
+}
+
+func init() {
+	c02 := func(n int) HarnessRun {
+		return HarnessRun{Entry: "VerifC02Atomic", Params: map[string]int{"N": n, "L": 1}, Covers: []string{"C02.committed", "C02.aborted", "C02.observer-saw-both-states", "C02.end"}, NoNative: true}
+	}
+	reg(&CheckSpec{
+		ID: "C02", PkgDir: "statedb",
+		Quick:    []HarnessRun{c02(2)},
+		Thorough: []HarnessRun{c02(3), {Entry: "VerifC02Atomic", Params: map[string]int{"N": 2, "L": 2}, Covers: []string{"C02.end"}, NoNative: true}},
+		Outside: []string{"outside: more than two tables / N writes per transaction; observation points are the synchronisation operations (atomic store/swap, mutex lock/unlock, channel close) executed between WriteTxn's return and the end of Commit/Abort - the states a concurrent reader (one atomic root load) can distinguish; finer instruction-level interleavings and weak memory are not explored",
+			"VM-only vocabulary (sync observer): counterexamples are replayed concretely in the VM on the real code"},
+	})
+	c06 := func(n, l int) HarnessRun {
+		return HarnessRun{Entry: "VerifC06Watch", Params: map[string]int{"N": n, "L": l}, Covers: []string{"C06.committed", "C06.aborted", "C06.changed-and-closed", "C06.end"}, NoNative: true}
+	}
+	reg(&CheckSpec{
+		ID: "C06", PkgDir: "statedb",
+		Quick:    []HarnessRun{c06(2, 1), c02(1)},
+		Thorough: []HarnessRun{c06(3, 1), c06(2, 2), c02(2)},
+		Outside: []string{"outside: channels obtained from write-transaction queries; a waiting goroutine is modelled by the sync observer (every point at which it could wake up relative to the committer's synchronisation operations); pre-state of two objects; more than N later writes; nothing is asserted about channels that close although the result did not change (allowed)"},
 	})
 }
